@@ -138,7 +138,7 @@ def registry():
             assumptions=['the weight calculus of DESIGN.md sec. 2.3 (an algebraic invariant of truncated power series)',
                          'kernel naming convention _NAME <-> NumPy/SciPy function NAME'])
         reg['C02'] = dict(
-            rules=[G.rule_grade('C02'), S.rule_kinds, S.rule_kernel_dtype, S.rule_reflect, G.rule_alias, S.rule_operand_order, S.rule_const_all_coeffs, S.rule_raw_broadcast],
+            rules=[G.rule_grade('C02'), S.rule_kinds, S.rule_kernel_dtype, S.rule_reflect, G.rule_alias, S.rule_operand_order, S.rule_const_all_coeffs, S.rule_raw_broadcast, S.rule_broadcast_axes],
             explanation='Static decision of structural conditions of the arithmetic operators: the convolution kernels and all eleven operator '
                         'bodies are homogeneous in the grading (O3: in particular a scalar/array constant meets coefficient 0 only for +,- '
                         'and every coefficient for *,/) with maximal ranges (O4); evidence rules on constants and result dtypes (C02.kinds); '
@@ -195,7 +195,7 @@ def registry():
             assumptions=['library summary tables of verif/effects.py'])
     if P is not None:
         reg['C11'] = dict(
-            rules=[P.rule_paxis, P.rule_batch, P.rule_p2, P.rule_p3, P.rule_p3b, P.rule_p4] + ([S.rule_raw_broadcast] if S is not None else []),
+            rules=[P.rule_paxis, P.rule_batch, P.rule_p2, P.rule_p3, P.rule_p3b, P.rule_p4] + ([S.rule_raw_broadcast, S.rule_broadcast_axes] if S is not None else []),
             explanation='Static information-flow discipline of the direction axis: in every loop over directions the axis-1 subscript of a '
                         '(D,P,...) array is the loop variable and the loop covers range(P); constant direction indices only read shapes (P1); '
                         'element-wise kernels never subscript axis 1 (batch); work arrays allocated outside a p-loop are killed before their '
